@@ -409,9 +409,10 @@ def patterns_for(rows, w, alph, full):
             out += [inrow[0], inrow[-1]]
         out += cross[:2]
     if allw:
-        last = allw[0]
-        other = last[:-1] + alph[(alph.index(last[-1]) + 1) % len(alph)]
-        out.append(other)
+        # near misses: an occurring window with its last / its first letter changed
+        base = (inrow or allw)[0]
+        out.append(base[:-1] + alph[(alph.index(base[-1]) + 1) % len(alph)])
+        out.append(alph[(alph.index(base[0]) + 1) % len(alph)] + base[1:])
     res = []
     for p in out:
         if p not in res:
@@ -438,7 +439,8 @@ def run(tier="quick", seed=0):
                     "distinct = distinct (function, path, alphabet, rows, window, pattern/matrix); all non-trivial except all-rows-shorter-than-w "
                     "(kept: they exercise the 'none for a short sequence' clause)" % (Lmax, wmax),
                     budget_s=(55 if quick else 570))
-    col.bounds = {"A.rows": "1..3", "A.row_length": "0..%d" % Lmax, "A.w": "1..%d" % wmax,
+    col.bounds = {"A.rows": "1..3", "A.row_length": "0..%d" % Lmax, "A.w": "1..%d" % wmax, "A'.4rows": "lengths in {0,1,w-1,w,w+1}, w in %s" % ("{2}" if quick else "{2,3,4}"),
+                  "sampling": "%d seeded cases: 4..6 rows, lengths 0..12, w 1..12" % (150 if quick else 3000),
                   "A.alphabets": {"get_kmers": ALPHABETS, "minimizers/match/motif/counts": ["ACGT", "ACG"]},
                   "B.exhaustive_contents": "AC: 1..2 rows (quick) / 1..3 rows (thorough) of length 0..3; ACGT: 1 row 0..4, 2 rows 0..2",
                   "C.k": "1..31 (capped so that |A|**k < 2**63), 2 layouts of 13-14 rows, total > 128 letters",
@@ -584,6 +586,24 @@ def run(tier="quick", seed=0):
                         if A ** w <= (64 if quick else 256) and variant < 2:
                             check_counts(col, alph, rows, w, None if variant == 0 else -1)
         if si % 5 == 0 and stop():
+            return col.result()
+
+    # ---- A'. 4 rows, every length in {0, 1, w-1, w, w+1}
+    for w in ((2,) if quick else (2, 3, 4)):
+        for lengths in itertools.product(sorted(set([0, 1, w - 1, w, w + 1])), repeat=4):
+            if sum(lengths) < w:
+                continue
+            for alph in ("ACGT", "ACG"):
+                rows = content(lengths, alph, 1)
+                check_kmers(col, alph, rows, w, "api", render=False)
+                for p in patterns_for(rows, w, alph, False)[:(1 if quick else 3)]:
+                    check_match(col, alph, rows, p, text=False)
+                if not quick:
+                    for k in sorted(set([1, 2, w])):
+                        if k <= w:
+                            check_minimizers(col, alph, rows, k, w)
+                    check_motif(col, alph, rows, w, "digits")
+        if stop():
             return col.result()
 
     # ---- above the bounds: seeded sampling (4..6 rows, lengths 0..12, w 1..12) until a fixed count
